@@ -62,18 +62,22 @@ def emitLegs (s : St) (ds : List LegDerive) : St × List Ref :=
   ds.foldl (fun (acc : St × List Ref) d => let (s', r) := acc.1.emit (.leg d); (s', acc.2 ++ [r])) (s, [])
 
 /-- `LegCharge.conj` / `LegPipe.conj` (ch): a new leg object sharing `slices` and `charges`; a pipe also gets
-conjugated (new) incoming leg objects -/
-def conjLeg (s : St) (l : Ref) : St × Ref :=
-  let L := s.h.leg l
-  if L.sub.isEmpty then
-    s.emit (.leg { src := l, shSlices := true, shCharges := true, qconj := -L.qconj, sorted := L.sorted, bunched := L.bunched })
-  else
-    let (s, subs) := emitLegs s (L.sub.map fun q =>
-      let Q := s.h.leg q
-      { src := q, shSlices := true, shCharges := true, qconj := -Q.qconj, sorted := Q.sorted, bunched := Q.bunched,
-        sub := .same })
-    s.emit (.leg { src := l, shSlices := true, shCharges := true, qconj := -L.qconj, sorted := L.sorted,
-                   bunched := L.bunched, sub := .refs subs })
+conjugated (new) incoming leg objects, recursively for nested pipes (`fuel` bounds the nesting depth) -/
+def conjLegF : Nat → St → Ref → St × Ref
+  | 0, s, l =>
+    let L := s.h.leg l
+    s.emit (.leg { src := l, shSlices := true, shCharges := true, qconj := -L.qconj, sorted := L.sorted, bunched := L.bunched,
+                   sub := .same })
+  | fuel + 1, s, l =>
+    let L := s.h.leg l
+    if L.sub.isEmpty then
+      s.emit (.leg { src := l, shSlices := true, shCharges := true, qconj := -L.qconj, sorted := L.sorted, bunched := L.bunched })
+    else
+      let acc := L.sub.foldl (fun (acc : St × List Ref) q => let r := conjLegF fuel acc.1 q; (r.1, acc.2 ++ [r.2])) (s, [])
+      acc.1.emit (.leg { src := l, shSlices := true, shCharges := true, qconj := -L.qconj, sorted := L.sorted,
+                         bunched := L.bunched, sub := .refs acc.2 })
+
+def conjLeg (s : St) (l : Ref) : St × Ref := conjLegF 6 s l
 
 def conjLegs (s : St) (ls : List Ref) : St × List Ref :=
   ls.foldl (fun (acc : St × List Ref) l => let (s', r) := conjLeg acc.1 l; (s', acc.2 ++ [r])) (s, [])
@@ -130,6 +134,7 @@ inductive CN where
   | replace_label
   | neg
   | zeros_like
+  | binary
   | gauge_total_charge
   | change_charge
   | drop_charge_one
@@ -155,7 +160,7 @@ inductive CN where
 deriving Repr, DecidableEq, Inhabited
 
 def CN.ofString (s : String) : Option CN :=
-  [("leg.new", CN.leg_new), ("leg.pipe", CN.leg_pipe), ("leg.conj", CN.leg_conj), ("leg.copy", CN.leg_copy), ("leg.to_LegCharge", CN.leg_to_LegCharge), ("leg.flip", CN.leg_flip), ("leg.sort", CN.leg_sort), ("leg.bunch", CN.leg_bunch), ("leg.project", CN.leg_project), ("leg.extend", CN.leg_extend), ("new", CN.new), ("copy", CN.copy), ("transpose", CN.transpose), ("conj", CN.conj), ("iconj", CN.iconj), ("add_trivial_leg", CN.add_trivial_leg), ("take_slice", CN.take_slice), ("scale_axis", CN.scale_axis), ("astype", CN.astype), ("replace_label", CN.replace_label), ("neg", CN.neg), ("zeros_like", CN.zeros_like), ("gauge_total_charge", CN.gauge_total_charge), ("change_charge", CN.change_charge), ("drop_charge_one", CN.drop_charge_one), ("extend", CN.extend), ("deep_fresh", CN.deep_fresh), ("fresh", CN.fresh), ("to_LegCharge_legs", CN.to_LegCharge_legs), ("concat_views", CN.concat_views), ("resort", CN.resort), ("itranspose", CN.itranspose), ("iswapaxes", CN.iswapaxes), ("iscale_axis", CN.iscale_axis), ("iunary", CN.iunary), ("iscale_zero", CN.iscale_zero), ("iscale_prefactor", CN.iscale_prefactor), ("iadd", CN.iadd), ("ipurge_zeros", CN.ipurge_zeros), ("iproject", CN.iproject), ("setitem_scalar", CN.setitem_scalar), ("setitem_write", CN.setitem_write), ("ilabels", CN.ilabels), ("ibinary", CN.ibinary)].lookup s
+  [("leg.new", CN.leg_new), ("leg.pipe", CN.leg_pipe), ("leg.conj", CN.leg_conj), ("leg.copy", CN.leg_copy), ("leg.to_LegCharge", CN.leg_to_LegCharge), ("leg.flip", CN.leg_flip), ("leg.sort", CN.leg_sort), ("leg.bunch", CN.leg_bunch), ("leg.project", CN.leg_project), ("leg.extend", CN.leg_extend), ("new", CN.new), ("copy", CN.copy), ("transpose", CN.transpose), ("conj", CN.conj), ("iconj", CN.iconj), ("add_trivial_leg", CN.add_trivial_leg), ("take_slice", CN.take_slice), ("scale_axis", CN.scale_axis), ("astype", CN.astype), ("replace_label", CN.replace_label), ("neg", CN.neg), ("zeros_like", CN.zeros_like), ("binary", CN.binary), ("gauge_total_charge", CN.gauge_total_charge), ("change_charge", CN.change_charge), ("drop_charge_one", CN.drop_charge_one), ("extend", CN.extend), ("deep_fresh", CN.deep_fresh), ("fresh", CN.fresh), ("to_LegCharge_legs", CN.to_LegCharge_legs), ("concat_views", CN.concat_views), ("resort", CN.resort), ("itranspose", CN.itranspose), ("iswapaxes", CN.iswapaxes), ("iscale_axis", CN.iscale_axis), ("iunary", CN.iunary), ("iscale_zero", CN.iscale_zero), ("iscale_prefactor", CN.iscale_prefactor), ("iadd", CN.iadd), ("ipurge_zeros", CN.ipurge_zeros), ("iproject", CN.iproject), ("setitem_scalar", CN.setitem_scalar), ("setitem_write", CN.setitem_write), ("ilabels", CN.ilabels), ("ibinary", CN.ibinary)].lookup s
 
 /-- result of a call: the operations and the reference of the resulting object (tensor or leg) -/
 def callSt (cy : Bool) (s : St) (name : CN) (x : Args) : St × Ref :=
@@ -244,6 +249,10 @@ def callSt (cy : Bool) (s : St) (name : CN) (x : Args) : St × Ref :=
     s.emit (.derive { srcs := [a], qtotal := .shared 0, labels := .fresh [tok], qdata := .shared 0, data := .sharedList 0 })
   | .neg =>          -- unary_blockwise: shallow copy, new blocks
     s.emit (.derive { srcs := [a], qtotal := .shared 0, qdata := .shared 0, data := .newList (freshBlks tok n) })
+  | .binary =>       -- binary_blockwise: shallow copy + ibinary_blockwise (other sorted before: "resort"); `_qdata` stays the
+                      -- operand's object iff it was sorted already and both have the same block structure (b0)
+    s.emit (.derive { srcs := [a], qtotal := .shared 0, qdata := if x.B 0 then .shared 0 else .fresh (x.L 0),
+                      data := .newList (freshBlks tok (x.L 0).length), dtype := some (x.N 0), qsorted := some true })
   | .zeros_like =>   -- shallow copy with `_data = []`, new empty `_qdata`
     s.emit (.derive { srcs := [a], qtotal := .shared 0, qdata := .fresh [], data := .newList [], qsorted := some true })
   | .gauge_total_charge => -- shallow copy; new qtotal; `res.legs[ax] = LegCharge.from_qind(…)`
@@ -274,7 +283,8 @@ def callSt (cy : Bool) (s : St) (name : CN) (x : Args) : St × Ref :=
                                                             | [LegSrc.ref r] => r
                                                             | _ => 0)) else .none })
     -- b0: qtotal shared with operand 0 (shallow-copy based functions: permute, split_legs worker, concatenate)
-    s.emit (.derive { srcs := x.a, legs := .newList (layout h x.a ls (x.L 0)),
+    -- (layout code t=2 with index beyond the created legs: a leg object passed in by the caller, e.g. add_leg)
+    s.emit (.derive { srcs := x.a, legs := .newList (layout h x.a (ls ++ x.g) (x.L 0)),
                       qtotal := if x.B 0 then .shared 0 else .fresh [tok + 100], labels := .fresh [tok + 101],
                       qdata := .fresh (x.L 1), data := .newList (freshBlks (tok + 102) (x.L 1).length),
                       dtype := some (x.N 0), qsorted := some (x.B 1) })
